@@ -47,9 +47,11 @@ func (c *PacketOverStreamTunnel) Read(p []byte) (n int, err error) {
 		return 0, fmt.Errorf("packet prefix 0x%x is not 0x00", delim[0])
 	}
 
+	// From here the stream is inside a packet. An end of stream is a
+	// truncated packet, not a clean end.
 	lengthBytes := make([]byte, 2)
 	if _, err = io.ReadFull(c.Conn, lengthBytes); err != nil {
-		return 0, err
+		return 0, unexpectedEOF(err)
 	}
 	length := int(binary.BigEndian.Uint16(lengthBytes))
 	if length > len(p) {
@@ -57,16 +59,23 @@ func (c *PacketOverStreamTunnel) Read(p []byte) (n int, err error) {
 	}
 
 	if n, err = io.ReadFull(c.Conn, p[:length]); err != nil {
-		return 0, err
+		return 0, unexpectedEOF(err)
 	}
 
 	if _, err = io.ReadFull(c.Conn, delim); err != nil {
-		return 0, err
+		return 0, unexpectedEOF(err)
 	}
 	if delim[0] != 0xff {
 		return 0, fmt.Errorf("packet suffix 0x%x is not 0xff", delim[0])
 	}
 	return
+}
+
+func unexpectedEOF(err error) error {
+	if err == io.EOF {
+		return io.ErrUnexpectedEOF
+	}
+	return err
 }
 
 func (c *PacketOverStreamTunnel) Write(p []byte) (int, error) {
